@@ -236,6 +236,7 @@ class Check:
         self.errors = []
         self.known = [k for k in load_known() if k.get('property') == pid]
         self.nontrivial = set()
+        self._seen = {}
 
     # -- declaration helpers
     def encodes(self, *objs):
@@ -291,6 +292,9 @@ class Check:
                 self.sample(r['obj'])
             elif kind == 'error':
                 self.errors.append(r['msg'])
+            elif kind == 'ob_time':
+                self.solver_s += r.get('secs', 0.0)
+                self.extra['feasibility_queries'] = self.extra.get('feasibility_queries', 0) + r.get('queries', 0)
             elif kind == 'encodes':
                 self.functions.update(r['functions'])
 
@@ -307,6 +311,10 @@ class Check:
         (harness, region) as known it is printed as KNOWN-FINDING, otherwise VIOLATION.
         """
         k = self.is_known(harness, region)
+        if (harness, region) in self._seen:
+            self._seen[(harness, region)] += 1
+            return
+        self._seen[(harness, region)] = 1
         os.makedirs(os.path.join(VERIF, 'replays'), exist_ok=True)
         body = json.dumps(jsonable({'property': self.pid, 'harness': harness, 'region': region,
                                     'desc': desc, 'replay': replay}), indent=1, sort_keys=True)
@@ -349,6 +357,7 @@ class Check:
             'stubs': self.stubs,
             'outside_the_claim': self.outside,
             'known_findings_hit': [list(k) for k in self.known_hits],
+            'counterexamples_per_region': {f'{h}/{r}': n for (h, r), n in self._seen.items()},
             'programs': max(len(self.functions), 1),
             'disagreements_checked': cnt.get('sat-replayed', 0) + cnt.get('sat-not-reproduced', 0)
             + cnt.get('sat-rounding', 0),
